@@ -4,6 +4,7 @@ pub mod c01;
 pub mod c02;
 pub mod c03;
 pub mod c11;
+pub mod c12;
 pub mod c13;
 
 pub fn run(ctx: &mut Ctx) -> bool {
@@ -12,12 +13,16 @@ pub fn run(ctx: &mut Ctx) -> bool {
         "C02" => c02::run(ctx),
         "C03" => c03::run(ctx),
         "C11" => c11::run(ctx),
+        "C12" => c12::run(ctx),
         "C13" => c13::run(ctx),
         _ => return false,
     }
     true
 }
 
-pub fn worker(_args: &[String]) -> i32 {
-    64
+pub fn worker(args: &[String]) -> i32 {
+    match args.first().map(String::as_str) {
+        Some("timeout") => c12::timeout_worker(&args[1..]),
+        _ => 64,
+    }
 }
